@@ -274,6 +274,12 @@ func TestC13(t *testing.T) {
 				if len(f) > 2048 {
 					f = f[:2048]
 				}
+				if total, _, err := ref.FrameLen(f); err == nil && total > 1<<20 {
+					// a header that declares up to 256 MiB makes every one of
+					// eight goroutines allocate that much under the race
+					// detector: races do not depend on size
+					f = []byte{f[0], 0x10}
+				}
 				c.Private = append(c.Private, f)
 			}
 		}
